@@ -287,6 +287,23 @@ Theorem c17_one_stale_conn_too_many k f q :
 Proof. exact (reuse_stale_too_many k f q). Qed.
 Print Assumptions c17_one_stale_conn_too_many.
 
+(** ** Re-sent UDP queries
+
+    Every datagram of an exchange (the first, each 1 s re-send) is the same
+    bytes under the same wire id, so a server may answer any of them, echoing
+    the id it received: the reply is taken by the waiting exchange, and the rest
+    (TC => TCP) is as for an answered first datagram. *)
+Theorem c17_resend_same_datagram q qid n d : In d (udp_sends q qid n) -> d = udp_wire_query q qid.
+Proof. exact (resend_same_datagram q qid n d). Qed.
+Print Assumptions c17_resend_same_datagram.
+
+Theorem c17_answer_to_any_send_accepted q qid n d r ds :
+  In d (udp_sends q qid n) -> qid < 65536 ->
+  get_id r = get_id d -> tr_dns_header_len <= len r -> len r <= udp_rx_buf ->
+  udp_receive qid (r :: ds) = Some r.
+Proof. exact (answer_to_any_send_accepted q qid n d r ds). Qed.
+Print Assumptions c17_answer_to_any_send_accepted.
+
 (** Non-vacuity of the above: url host 127.0.0.2 (no port), DialAddr 127.0.0.1:5353. *)
 Example c17_dials_nonvacuous :
   udp_upstream_dials (Addr.lit "udp://127.0.0.2"%string) (Addr.lit "127.0.0.1:5353"%string)
